@@ -1069,13 +1069,31 @@ fn schedule_part(run: &Run) -> Value {
     sched::install_hook();
     let th = run.thorough();
     let tot = std::sync::Mutex::new((0u64, 0u64, 0u64, 0u64, 0u64)); // executions, points, par calls, complexes, with >1 outcome
-    fn part<T: Sc>(run: &Run, tot: &std::sync::Mutex<(u64, u64, u64, u64, u64)>, al: &[T::Ref], l: usize, maxrank: usize, bound: u32, thin_3x3: bool)
+    fn part<T: Sc>(run: &Run, tot: &std::sync::Mutex<(u64, u64, u64, u64, u64)>, al: &[T::Ref], l: usize, maxrank: usize, bound: u32, thin_3x3: bool, max_cells: usize)
     where
         for<'x> &'x T: RingOps<T>,
     {
-        let cxs: Vec<Cx<T>> = enumerate(al, l, maxrank)
+        let raw: Vec<Vec<RMat<T::Ref>>> = if l == 0 {
+            // "covered" family: one differential of shape 3x4 (and its transpose) whose first column
+            // (row) is e_1.  The parallel phase of the pivot search is only entered by rows that
+            // the two sequential pre-phases leave over, i.e. rows without a free unit entry whose
+            // unit columns are all occupied by an earlier pivot row; with <= 3 columns the covering
+            // row also makes every candidate of the other rows cyclic, so no complex of the
+            // general family (rank <= 3) ever has two workers writing the shared pivot table.
+            let mut v = vec![];
+            for t in tuples(al, 9) {
+                let m = RMat::from_fn(3, 4, |i, j| if j == 0 { if i == 0 { <T::Ref>::one() } else { <T::Ref>::zero() } } else { t[i * 3 + j - 1].clone() });
+                v.push(vec![RMat::zero(0, 4), m.transpose()]);
+                v.push(vec![RMat::zero(0, 3), m]);
+            }
+            v
+        } else {
+            enumerate(al, l, maxrank)
+        };
+        let cxs: Vec<Cx<T>> = raw
             .into_iter()
             .filter(|d| d.iter().any(|m| m.m >= 2 && m.n >= 2 && !m.is_zero()))
+            .filter(|d| d.iter().all(|m| m.m * m.n <= max_cells))
             // quick tier: 3x3 differentials only over the first two letters of the alphabet
             .filter(|d| !thin_3x3 || d.iter().all(|m| !(m.m == 3 && m.n == 3) || m.e.iter().all(|x| *x == al[0] || *x == al[1])))
             .map(|d| Cx::<T>::new(d, None))
@@ -1087,7 +1105,12 @@ fn schedule_part(run: &Run) -> Value {
             }
             let cx = &cxs[ci];
             let ll = cx.len();
-            let cfg = Config { workers: 2, choose_items: false, max_decisions: 100_000, min_items: 2, count_task_switches: false };
+            // general family: the assignment of tasks to workers is free (every task end is an
+            // unbounded choice), only preemptions are bounded.  Covered family: a task end that hands
+            // the next task to the other worker counts as a deviation as well, otherwise the free
+            // choices of the four parallel calls of one `reduce` multiply to > 20 000 executions
+            // per complex.
+            let cfg = Config { workers: 2, choose_items: false, max_decisions: 100_000, min_items: 2, count_task_switches: l == 0 };
             let body = || -> Result<Obs<T::Ref>, String> {
                 let c = cx.build(false);
                 let r = ChainReducer::reduce(&c, true);
@@ -1101,8 +1124,26 @@ fn schedule_part(run: &Run) -> Value {
                 }
                 Ok(o)
             };
+            if l == 0 {
+                // covered family: the default execution decides whether the race window exists
+                let (_, tr) = sched::run_scheduled(&cfg, &[], body);
+                // one task of the parallel pivot phase passes at most 3 lock points (snapshot, refresh,
+                // commit); 4 or more mean that the phase had at least two tasks
+                let p = tr.labels.iter().filter(|l| l.1.starts_with("rwlock")).count();
+                run.add("sched_covered_family_members", 1);
+                if p < 4 {
+                    return;
+                }
+                run.add("sched_covered_family_members_with_two_pivot_tasks", 1);
+            }
             let mut outcomes: Vec<u64> = vec![];
+            let mut race_window = false;
             let st = sched::explore(&cfg, Some(bound), 20_000, body, |r, tr| {
+                // is the shared pivot table written by two different workers in this execution?
+                if !race_window {
+                    let w: std::collections::BTreeSet<u8> = tr.labels.iter().filter(|l| l.1 == "rwlock.write").map(|l| l.0).collect();
+                    race_window = w.len() >= 2;
+                }
                 if tr.diverged.is_some() {
                     // pivot choice depends on per-instance hash seeds: the prefix could not be followed;
                     // the execution that happened instead is still judged
@@ -1148,19 +1189,38 @@ fn schedule_part(run: &Run) -> Value {
             if outcomes.len() > 1 {
                 g.4 += 1;
             }
+            if race_window {
+                run.add("sched_complexes_with_two_writers_of_the_pivot_table", 1);
+            }
         });
     }
     let zal: Vec<Z> = [0, 1, 2].map(z).to_vec();
     let bound = if th { 2 } else { 1 };
-    part::<i64>(run, &tot, &zal, 2, 3, bound, !th);
+    let t0 = run.elapsed();
+    part::<i64>(run, &tot, &zal, 2, 3, bound, !th, usize::MAX);
+    eprintln!("[c08] schedules: bound {bound} pass done in {:.1}s", run.elapsed() - t0);
+    if !th {
+        // iterate the bound (CHESS) as far as the quick budget allows: 2 preemptions for every
+        // differential with at most 6 cells (up to 2x3 / 3x2) over the full alphabet
+        let t0 = run.elapsed();
+        part::<i64>(run, &tot, &zal, 2, 3, 2, false, 6);
+        eprintln!("[c08] schedules: bound 2 pass (<= 6 cells) done in {:.1}s", run.elapsed() - t0);
+    }
+    {
+        let t0 = run.elapsed();
+        part::<i64>(run, &tot, &zal, 0, 4, 2, false, usize::MAX);
+        eprintln!("[c08] schedules: covered 3x4 / 4x3 family, 2 deviations, done in {:.1}s", run.elapsed() - t0);
+    }
     if th {
-        part::<i64>(run, &tot, &[z(0), z(1), z(-1), z(2)], 3, 2, bound, false);
-        part::<FF<3>>(run, &tot, &Fp::<3>::all(), 2, 3, bound, false);
+        part::<i64>(run, &tot, &[z(0), z(1), z(-1), z(2)], 3, 2, bound, false, usize::MAX);
+        part::<FF<3>>(run, &tot, &Fp::<3>::all(), 2, 3, bound, false, usize::MAX);
     }
     let g = tot.into_inner().unwrap();
     json!({"complexes": g.3, "executions": g.0, "lock_points_passed": g.1, "scheduled_parallel_calls": g.2,
-           "complexes_with_more_than_one_distinct_result": g.4, "workers": 2, "preemption_bound": bound,
-           "prefixes_not_replayable_because_of_hash_order": run.get("sched_prefixes_not_replayable")})
+           "complexes_with_more_than_one_distinct_result": g.4, "workers": 2, "preemption_bound": if th { "2".to_string() } else { "1 for every complex; 2 for differentials with <= 6 cells".to_string() },
+           "covered_family": {"rule": "one differential 3x4 or 4x3 over {0,1,2} whose first column / row is e_1; explored iff the default execution has two tasks in the parallel pivot phase; deviations = preemptions + hand-overs at task ends, bound 2", "members": run.get("sched_covered_family_members"), "members_with_two_pivot_tasks_explored": run.get("sched_covered_family_members_with_two_pivot_tasks")},
+           "prefixes_not_replayable_because_of_hash_order": run.get("sched_prefixes_not_replayable"),
+           "complex_passes_in_which_two_workers_write_the_shared_pivot_table": run.get("sched_complexes_with_two_writers_of_the_pivot_table")})
 }
 
 extern "C" {
